@@ -128,10 +128,20 @@ def stmt_faults():
     F["F08n"] = ([svc([("lit", "Fq", fq_json(items=("arr", [fin_json(), fin_json(pair=("arr", [("bool", False), n(1)]))])))])],
                  0, None)
     F["F08o"] = ([svc([("lit", "Fq", fq_json(nums=("arr", [fin_json(), n(2)])))])], 0, None)
+    # an array that directly contains arrays: the inner lists are not values of the element type
+    F["F08p"] = ([svc([("lit", "Fq", fq_json(nums=("arr", [("arr", [n(1), n(2)]), ("arr", [n(3), n(4)])])))])], 0, None)
+    F["F08q"] = ([svc([("lit", "Fq", fq_json(nums=("arr", [n(1), n(2), ("arr", [n(3)])])))])], 0, None)
+    F["F08r"] = ([svc([("lit", "Fq", fq_json(inner=fin_json(pair=("arr", [n(1), ("arr", [n(2)]), n(3)]))))])], 0, None)
     F["F09a"] = ([svc([("lit", "Fq", fq_json(nums=("arr", [n(1), n(2), n(3)])))])], 0, None)
     F["F09b"] = ([svc([("lit", "Fq", fq_json(fixed=("arr", [fin_json()])))])], 0, None)
     F["F09c"] = ([svc([("lit", "Fq", fq_json(inner=fin_json(pair=("arr", [n(1)]))))])], 0, None)
     F["F09d"] = ([svc([("lit", "Fq", fq_json(items=("arr", [fin_json(pair=("arr", [n(1), n(2), n(3)]))])))])], 0, None)
+    # wrong length = 0: the empty literal for a fixed-length array
+    F["F09e"] = ([svc([("lit", "Fq", fq_json(nums=("arr", [])))])], 0, None)
+    F["F09f"] = ([svc([("lit", "Fq", fq_json(fixed=("arr", [])))])], 0, None)
+    F["F09g"] = ([svc([("lit", "Fq", fq_json(inner=fin_json(pair=("arr", []))))])], 0, None)
+    F["F09h"] = ([svc([("lit", "Fq", fq_json(items=("arr", [fin_json(), fin_json(pair=("arr", []))])))])], 0, None)
+    F["F09i"] = ([("call", "fcallee", [("lit", "Fq", fq_json(fixed=("arr", []))), P("q", "count")], [("x1", FIN)])], 0, None)
     F["F13b"] = ([svc(outs=[("x", FIN), ("x", FIN)])], 0, None)
     F["F13c"] = ([("call", "fcallee", [("var", "q"), P("q", "count")], [("x1", FIN), ("x1", FIN)])], 0, None)
     F["F16a"] = ([("call", "fcallee", [("var", "q")], [("x1", FIN)])], 0, None)
@@ -170,6 +180,16 @@ def stmt_faults():
     F["F18q"] = ([("count", False, "k", ("path", "q", [("f", "nums")]), [svc()])], 0, None)
     F["F18r"] = ([("while", cmp_("And", ("bool", False), P("q", "inner", "pair")), [svc()])], 0, None)
     F["F18s"] = ([("count", True, "k", ("path", "q", [("f", "inner"), ("f", "pair")]), [("call",) + GOOD_CALL])], 0, None)
+    # an INDEXED array path where the validator (and the scheduler) cannot type it: these follow
+    # the documented rules (wf_dec holds, finding D25) but have to be reported, because the
+    # scheduler cannot evaluate them
+    F["F18t"] = ([cond(cmp_("<", P("q", "items", 0, "n"), n(3)))], 0, None)
+    F["F18u"] = ([("while", cmp_("And", ("bool", False), P("q", "items", 1, "ok")), [svc()])], 0, None)
+    F["F18v"] = ([("count", False, "k", ("path", "q", [("f", "items"), ("il", 0), ("f", "n")]), [svc()])], 0, None)
+    F["F18w"] = ([("count", True, "k", ("path", "q", [("f", "fixed"), ("il", 1), ("f", "n")]), [("call",) + GOOD_CALL])], 0, None)
+    F["F18x"] = ([("count", False, "k", ("int", 2), [cond(cmp_(">=", P("q", "items", "@k", "n"), n(1)))])], 0, 0)
+    F["F18y"] = ([cond(P("q", "fixed", 0, "ok"))], 0, None)
+    F["F18z"] = ([("while", cmp_("<", cmp_("+", P("q", "items", 0, "n"), n(1)), n(0)), [svc()])], 0, None)
     F["F20a"] = ([("count", True, "k", ("int", 2), [svc()])], 0, None)
     F["F20b"] = ([("count", True, "k", ("int", 2), [("call",) + GOOD_CALL, ("call",) + GOOD_CALL])], 0, None)
     F["F20c"] = ([("count", True, "k", ("int", 2), [("count", False, "m", ("int", 1), [svc()])])], 0, None)
@@ -178,8 +198,11 @@ def stmt_faults():
 
 
 STMT_FAULTS = stmt_faults()
+# catalogue entries whose mutants satisfy the documented rules (wf_dec) and still have to be rejected
+WF_BUT_REJECTED = {"F18t", "F18u", "F18v", "F18w", "F18x", "F18y", "F18z"}
+
 DEF_FAULTS = ["F03a", "F03b", "F03e", "F03f", "F10a", "F11a", "F12a", "F13a", "F14a", "F15a",
-              "F19a", "F19b", "F19c", "F19d"]
+              "F19a", "F19b", "F19c", "F19d", "F19e", "F19f", "F19g"]
 ALL_FAULTS = sorted(STMT_FAULTS) + DEF_FAULTS
 
 POS_KINDS = ["prod_first", "prod_mid", "prod_last", "called_first", "called_last", "new_called",
@@ -340,6 +363,29 @@ def inject_def(p, rng, fault):
         ti = add_task(p, "tnew", [svc(name="Sn"), ("count", True, "z", ("int", 2), [("call", "tnew", [], [])])])
         tasks[prod]["body"].append(("call", "tnew", [], []))
         info["span"] = ("span_stmt", ti, (1, 0))
+    elif fault in ("F19e", "F19f", "F19g"):
+        # recursion whose cycle edges sit in Failed branches (the "retry" pattern)
+        def failed_call(name, deep):
+            inner = [("call", name, [], [])]
+            if deep:
+                inner = [("count", False, "r", ("int", 1), [("while", ("bool", False), inner)])]
+            return ("cond", ("bool", False), [svc(name="Sok")], inner)
+        deep = rng.random() < 0.5
+        if fault == "F19e":      # a -> b in Failed, b -> a in Failed
+            ti = add_task(p, "tnew", [svc(name="Sn"), failed_call("tnew2", deep)])
+            add_task(p, "tnew2", [svc(name="Sm"), failed_call("tnew", not deep)])
+            path = (1, 1, 0) + ((0, 0) if deep else ())
+        elif fault == "F19f":    # cycle of length 3, every edge in a Failed branch
+            ti = add_task(p, "tnew", [svc(name="Sn"), failed_call("tnew2", deep)])
+            add_task(p, "tnew2", [failed_call("tnew3", False)])
+            add_task(p, "tnew3", [svc(name="Sm"), failed_call("tnew", True)])
+            path = (1, 1, 0) + ((0, 0) if deep else ())
+        else:                    # one edge in Failed, the way back in Passed
+            ti = add_task(p, "tnew", [svc(name="Sn"), failed_call("tnew2", deep)])
+            add_task(p, "tnew2", [("cond", ("bool", True), [("call", "tnew", [], [])], [])])
+            path = (1, 1, 0) + ((0, 0) if deep else ())
+        tasks[prod]["body"].append(("call", "tnew", [], []))
+        info["span"] = ("span_stmt", ti, path)
     else:
         raise ValueError(fault)
     return info
